@@ -333,6 +333,9 @@ class BehavioralRTLIRTypeCheckVisitorL2( BehavioralRTLIRTypeCheckVisitorL1 ):
       # -200 and ~200 need more bits than 200
       if not node._is_explicit and type( getattr( node, '_value', None ) ) is int:
         node.Type = s.rtlir_getter.get_rtlir( node._value )
+      # ~Bits3(1) is 6, not -2
+      elif node._is_explicit and type( getattr( node, '_value', None ) ) is int:
+        node._value &= ( 1 << node.Type.get_dtype().get_length() ) - 1
 
   # def visit_BoolOp( s, node ):
   #   max_nbits = -1
